@@ -1,11 +1,63 @@
 #!/usr/bin/env python3
 """Reusable check stages: model checking (M), product exploration (B1),
 call-level trace validation (B2)."""
+import hashlib
 import json
 import os
 
 from vlib import (NCPU, SPEC, WORK, BIN, ToolError, count_lines, log, read_ndjson_line,
                   run_harness, run_tlc, seed, tlc_many, workdir)
+
+
+def _h(obj):
+    return hashlib.blake2b(json.dumps(obj, sort_keys=True).encode(), digest_size=12).digest()
+
+
+def distinct_calls(files):
+    """Measured: number of recorded calls whose (context, haystack, span, call kind, anchoring)
+    is distinct AND non-trivial (the context has >= 1 pattern and the searched span is
+    non-empty: there is something to search for and something to search in)."""
+    seen = set()
+    for f in files:
+        ctxs = {}
+        with open(f) as fh:
+            for i, l in enumerate(fh, 1):
+                e = json.loads(l)
+                if e.get("ev") == "ctx":
+                    ctxs[i] = (_h(e["ctx"]), len(e["ctx"]["pats"]) > 0)
+                elif e.get("ev") == "multi":
+                    ch, nonempty = ctxs.get(e["c"], (b"", False))
+                    if not nonempty or e["e"] <= e["s"]:
+                        continue
+                    base = _h([e["hay"], e["s"], e["e"]])
+                    for c in e["calls"]:
+                        seen.add(ch + base + _h(c[:3] + [c[5]]))
+    return len(seen)
+
+
+def distinct_lines(files, drop=()):
+    """Measured: number of distinct recorded lines (ignoring the fields in `drop`)."""
+    seen = set()
+    for f in files:
+        with open(f) as fh:
+            for l in fh:
+                e = json.loads(l)
+                for k in drop:
+                    e.pop(k, None)
+                seen.add(_h(e))
+    return len(seen)
+
+
+def distinct_automata(files):
+    """Measured: distinct dumped automata (by configuration) with >= 3 reachable states."""
+    seen = set()
+    for f in files:
+        with open(f) as fh:
+            for l in fh:
+                e = json.loads(l)
+                if len(e.get("states", [])) >= 3:
+                    seen.add(_h(e["ctx"]))
+    return len(seen)
 
 
 def write_cfg(name, spec="Spec", constants=None, invariants=(), properties=(), view=None,
@@ -105,6 +157,7 @@ def product(ck, name, families, full=False, shards=2, timeout=3000, mks=("std", 
                  "path": d["path"], "disagreement": d["kind"], "why": d["why"]})
     ck.traces += st.get("automata", 0)
     ck.evaluations += st.get("automata", 0)
+    ck.distinct += distinct_automata(files)
     ck.stage("B1-product", families=families, full=full, automata=st.get("automata"),
              impl_states=st.get("states"), lists=st.get("lists"),
              product_pairs=sum(r.distinct for r in results),
@@ -159,6 +212,7 @@ def calls(ck, name, family, scale=1, shards=NCPU, timeout=3000, spec="TraceCalls
                  "call": call, "why": r["why"]})
     ck.traces += st.get("events", 0)
     ck.evaluations += st.get("events", 0)
+    ck.distinct += distinct_calls(files)
     ck.stage("B2-calls", family=family, scale=scale, contexts=st.get("contexts"),
              calls=st.get("events"), lines=sum(nlines), rejected=nrej,
              wall=round(max([r.wall for r in results] or [0]), 1))
@@ -167,4 +221,51 @@ def calls(ck, name, family, scale=1, shards=NCPU, timeout=3000, spec="TraceCalls
         c = read_ndjson_line(files[0], 1)
         ck.sample({"ctx": c.get("ctx"), "hay": ev.get("hay"), "s": ev.get("s"), "e": ev.get("e"),
                    "calls": (ev.get("calls") or [])[:3]})
+    return st
+
+
+def events_trace(ck, name, sub, args, spec, cfg, what, shards=1, workers=NCPU, sig_fields=(),
+                 distinct_drop=()):
+    """Generic: harness subcommand writes <prefix>.<i>.ndjson, TLC spec validates
+    every line (REJECT lines are violations, DRIFT lines are drift)."""
+    wd = workdir(name)
+    prefix = os.path.join(wd, "trace")
+    st = run_harness([sub, "--out", prefix, "--shards", shards, "--seed", seed()] + list(args))
+    jobs, files, nlines = [], [], []
+    for i in range(shards):
+        f = "%s.%d.ndjson" % (prefix, i)
+        if not os.path.exists(f):
+            continue
+        n = count_lines(f)
+        if n == 0:
+            continue
+        files.append(f)
+        nlines.append(n)
+        jobs.append(dict(module=spec, cfg=os.path.join(SPEC, cfg), name="%s_%d" % (name, i),
+                         env={"TRACE": f}, workers=max(1, workers // max(1, shards)),
+                         timeout=3000, xmx="4g"))
+    results = tlc_many(jobs, parallel=NCPU)
+    nrej = 0
+    for f, n, res in zip(files, nlines, results):
+        ck.add_tlc(res)
+        if res.distinct != n:
+            raise ToolError("trace %s: %d lines but TLC consumed %d" % (f, n, res.distinct))
+        for d in res.tagged("DRIFT"):
+            if len(ck.drift) < 50:
+                ck.drift.append({"line": read_ndjson_line(f, d["line"]), "why": d["why"]})
+        for r in res.tagged("REJECT"):
+            nrej += 1
+            if len(ck.violations) + len(ck.known_hits) > 200:
+                continue
+            ev = read_ndjson_line(f, r["line"]) if r["line"] else {}
+            sig = "%s:%s" % (what, json.dumps([ev.get(k) for k in sig_fields]))
+            ck.violation("%s: %s; recorded: %s" % (what, r["why"], json.dumps(ev)[:400]),
+                         {"signature": sig, "kind": what, "event": ev, "why": r["why"]})
+    ck.traces += st.get("events", 0)
+    ck.evaluations += st.get("events", 0)
+    ck.distinct += distinct_lines(files, distinct_drop)
+    ck.stage("B2-" + what, harness=sub, args=[str(a) for a in args], events=st.get("events"),
+             lines=sum(nlines), rejected=nrej, wall=round(max([r.wall for r in results] or [0]), 1))
+    if files:
+        ck.sample(read_ndjson_line(files[0], min(5, nlines[0])))
     return st
